@@ -253,6 +253,8 @@ pub struct Monitor {
     disp_reg_failed: bool,
     disp_timeout_ms: u32,
     disp_synth_promised: bool,
+    /// (source, scripted post-action) of the last finished callback of the current event processing
+    last_cb_post: Option<(SrcId, PostRet)>,
     /// time of the first user callback of the current dispatch (the wait is over by then)
     disp_first_cb_ns: Option<i64>,
     tasks: Vec<MTask>,
@@ -330,6 +332,7 @@ impl Monitor {
             disp_reg_failed: false,
             disp_timeout_ms: 0,
             disp_synth_promised: false,
+            last_cb_post: None,
             disp_first_cb_ns: None,
             tasks: vec![],
             asyncs: vec![],
@@ -1812,6 +1815,7 @@ impl Monitor {
                 self.cur_proc = Some(s);
                 self.cur_proc_key = *key;
                 self.srcs[s].stream_polled = false;
+                self.last_cb_post = None;
                 let m = &self.srcs[s];
                 if m.taint.is_none() && m.st != St::Created && m.st != St::Rejected && key_src(*key) != key_src(m.key) {
                     return viol(
@@ -1884,6 +1888,7 @@ impl Monitor {
             }
             Ev::CbEnd { src, timer, new_deadline_ns, t_ns, post } => {
                 let s = *src;
+                self.last_cb_post = Some((s, *post));
                 self.cur_cb = None;
                 self.cb_depth = self.cb_depth.saturating_sub(1);
                 if let Some(ci) = self.cur_child.take() {
@@ -2012,6 +2017,18 @@ impl Monitor {
                     self.disp_actors += 1;
                 }
                 if self.srcs[s].st == St::Inserted {
+                    // a ping source leaves on its own only for its close event, which every ping precedes: a ping that is
+                    // still undelivered at that moment is lost for good
+                    if let (Kind::Ping, PRet::Remove) = (&self.srcs[s].kind, *ret) {
+                        let m = &self.srcs[s];
+                        if m.taint.is_none() && m.pings > 0 && self.last_cb_post != Some((s, PostRet::Remove)) {
+                            return viol(
+                                "C03.served",
+                                &["C03", "C02", "C06"],
+                                format!("ping source #{s} removed itself (handles left: {}) although a ping that has returned is still undelivered", m.handles),
+                            );
+                        }
+                    }
                     match effective {
                         PRet::Remove => {
                             let m = &mut self.srcs[s];
